@@ -77,6 +77,10 @@ var c19Labels = []string{"alice", "bob", "srv", "files", "router", "open", "wpad
 
 const c19IDN, c19Puny = "münchen", "xn--mnchen-3ya"
 
+// c19Deep are names below a label that starts with "myco": a friend is only
+// its own name plus ".myco", whatever follows that in a longer name.
+var c19Deep = []string{"alice.myco", "alice.mycology", "bob.myco", "srv.mycorrhiza", "files.myco.myco", "x1.mycoria"}
+
 func c19Norm(name string) string {
 	n := strings.ToLower(name)
 	n = strings.TrimSuffix(n, ".")
@@ -143,6 +147,9 @@ func TestC19(t *testing.T) {
 			}
 			if c.Chance("mapping.sub", 1, 4) {
 				lbl = "www." + lbl
+			}
+			if c.Chance("mapping.deep", 1, 6) {
+				lbl = c19Deep[c.Pick("mapping.deep.name", len(c19Deep))]
 			}
 			name := lbl + ".myco" // the dashboard stores cleaned names
 			ip := ipOf("mapping.ip")
@@ -221,6 +228,10 @@ func TestC19(t *testing.T) {
 				}
 				if c.Chance("q.sub", 1, 4) {
 					lbl = "www." + lbl
+				}
+				if c.Chance("q.deep", 1, 6) {
+					lbl = c19Deep[c.Pick("q.deep.name", len(c19Deep))]
+					c.Class("query-below-a-myco-like-label")
 				}
 				qname = lbl + ".myco."
 			case 1:
